@@ -215,10 +215,10 @@ fn candidates(p: &Plan) -> Vec<Plan> {
     // fault positions toward zero, simpler fault payloads
     for i in 0..p.medium.len() {
         match &p.medium[i] {
-            MFault::Trunc { at } | MFault::Flip { at, .. } | MFault::Sub { at, .. } | MFault::Zero { at, .. } | MFault::Dup { at, .. } if *at > 0 => {
+            MFault::Trunc { at } | MFault::Flip { at, .. } | MFault::Sub { at, .. } | MFault::Zero { at, .. } | MFault::Dup { at, .. } | MFault::Field { at, .. } if *at > 0 => {
                 for na in [0, at / 2, at - 1] {
                     push(&|c| match &mut c.medium[i] {
-                        MFault::Trunc { at } | MFault::Flip { at, .. } | MFault::Sub { at, .. } | MFault::Zero { at, .. } | MFault::Dup { at, .. } => *at = na,
+                        MFault::Trunc { at } | MFault::Flip { at, .. } | MFault::Sub { at, .. } | MFault::Zero { at, .. } | MFault::Dup { at, .. } | MFault::Field { at, .. } => *at = na,
                         _ => {}
                     });
                 }
